@@ -39,7 +39,9 @@ type Engine struct {
 	timeoutS   int
 	verbose    bool
 	outDir     string
-	prop       string // property being checked ("" with -func)
+	loopVars   map[string][]LoopVar // registered loop-carried variables per function (rename tolerance)
+	curVars    map[string][]LoopVar // those of the functions verified in this run
+	prop       string               // property being checked ("" with -func)
 }
 
 func repoPkgPrefix() string { return "github.com/craterdog/go-collection-framework/v4" }
@@ -235,4 +237,14 @@ func findLoops(fn *ssa.Function) map[*ssa.BasicBlock]*loopInfo {
 		loops[h].ordinal = i + 1
 	}
 	return loops
+}
+
+// LoopVar: a named loop-carried variable (phi at a loop header) of a function under contract. The registry
+// (engine/loopvars.json, written with -update-expected) lets a contract keep working when a refactoring merely
+// renames such a variable: an identifier a contract no longer resolves is looked up here by (loop, position, type).
+type LoopVar struct {
+	Loop  int    `json:"loop"`
+	Index int    `json:"index"`
+	Name  string `json:"name"`
+	Type  string `json:"type"`
 }
